@@ -391,6 +391,11 @@ impl<T: Engine> FftFilterFloat<T> {
 
 impl<T: Engine> crate::block::BlockEOF for FftFilterFloat<T> {
     fn eof(&mut self) -> bool {
+        // Nobody is left to read the output: the waits in work() (whose
+        // results can't be reported through WaitForFunc) would never end.
+        if crate::stream::StreamWait::closed(&self.dst) {
+            return true;
+        }
         // The input having ended is not enough: converted samples may still be
         // on their way through the inner filter, e.g. because the output
         // stream was full when they came out.
